@@ -114,6 +114,65 @@ def op_simp_inv(ctx, key, chains, max_param):
     ctx.report.setdefault('simp_inv', {})[key] = res
 
 
+def op_subs_templates(ctx, max_param, ints):
+    """Every substitution string form sympy_simplify can record (simplifier.py: pair table, multiples/powers
+    table, sign flip, permutations, reordering), instantiated for max_param parameters and the given integers,
+    rendered with str({k: v}) on sympy objects exactly as the simplifier renders them."""
+    import itertools
+    import numpy as np
+    import sympy
+    from esr.fitting.sympy_symbols import square, cube, pow_abs, sqrt_abs, log_abs
+    param_list = ['a%i' % i for i in range(max_param)]
+    all_a = sympy.symbols(" ".join(param_list), real=True)
+    if max_param == 1:
+        all_a = [all_a]
+    Abs = sympy.Abs
+    out = [str(np.nan)]
+    for c in itertools.combinations(np.flip(np.arange(max_param)), 2):
+        A, B = all_a[c[0]], all_a[c[1]]
+        plain = [A + B, A - B, B - A, A * B, A / B, B / A, A + Abs(B), A - Abs(B), Abs(B) - A, A * Abs(B), A / Abs(B), B / Abs(A),
+                 B + Abs(A), B - Abs(A), Abs(A) - B, B * Abs(A), Abs(A) - Abs(B), Abs(B) - Abs(A)]
+        absd = [Abs(A) * Abs(B), Abs(A) + Abs(B), Abs(A) / Abs(B), Abs(B) / Abs(A), pow_abs(B, A), pow_abs(A, B),
+                pow_abs(B, Abs(A)), pow_abs(A, Abs(B))]
+        for v in (0, 1):
+            for e in plain:
+                out.append(str({e: all_a[c[v]]}))
+            for e in absd:
+                out.append(str({e: Abs(all_a[c[v]])}))
+    for a in all_a:
+        for n in ints:
+            n = sympy.Integer(n)
+            if n == 0:
+                continue
+            out.append(str({a: a / n}))
+            if n.is_even:
+                out.append(str({a: pow_abs(a, 1 / n)}))
+                out.append(str({a: pow_abs(a, 1 / (n + 1))}))
+            else:
+                out.append(str({a: a ** (1 / n)}))
+                out.append(str({a: pow_abs(a, 1 / (n + 1)) * sympy.sign(a)}))
+        out += [str({a: sqrt_abs(a)}), str({a: a ** sympy.Rational(1, 3)}), str({a: pow_abs(a, sympy.Rational(1, 3))}),
+                str({a: square(a)}), str({a: sympy.exp(a)}), str({a: log_abs(a)}), str({a: -a}), str({a: 1 / a})]
+    for k in range(2, max_param + 1):
+        s = list(all_a[:k])
+        for p in itertools.permutations(range(k)):
+            d = {s[i]: s[p[i]] for i in range(k) if i != p[i]}
+            if d:
+                out.append(str(d))
+    # reordering maps {a_common[i]: a_i}
+    for k in range(1, max_param):
+        for common in itertools.combinations(range(max_param), k):
+            d = {all_a[common[i]]: all_a[i] for i in range(k)}
+            if any(kk != vv for kk, vv in d.items()):
+                out.append(str(d))
+    seen, uniq = set(), []
+    for t in out:
+        if t not in seen and 'zoo' not in t:
+            seen.add(t)
+            uniq.append(t)
+    ctx.report['templates'] = uniq
+
+
 def op_barrier(ctx):
     ctx.comm.Barrier()
 
@@ -125,7 +184,7 @@ def op_check_results(ctx, runname, compl, **kw):
 
 
 OPS = dict(gen=op_gen, npseed=op_npseed, like=op_like, fit=op_fit, load_subs=op_load_subs,
-           slices=op_slices, simp_inv=op_simp_inv, barrier=op_barrier, check_results=op_check_results)
+           slices=op_slices, simp_inv=op_simp_inv, subs_templates=op_subs_templates, barrier=op_barrier, check_results=op_check_results)
 
 
 def run_program(program, rank, size, scratch, report, comm):
